@@ -10,15 +10,15 @@
     [dom c G]: every statement of [G] has an IRI subject and an IRI or literal
     object that the endpoint path (result reader, cache round trip, token
     tuning) reads exactly as the local N-Triples path does ([C15_dom], a
-    boolean evaluated by the harness on every generated graph; it holds for
-    IRI nodes with plain non-numeric strings and canonical integers, see the
-    Examples), and [G] read locally has no repeated statement.
+    boolean evaluated by the harness on every generated graph; since the
+    repairs of findings C15-F1/F2/F4/F5 it holds for IRI nodes with plain,
+    typed and language-tagged literals whose lexical form has no double
+    quote, see the Examples), and [G] read locally has no repeated statement.
 
     [targets c G O pass m]: the target nodes of a pass (instances the class
     selectors returned, LIMIT applied; nodes of the shape-map selectors).
-    [neighbourhood inv T G] = statements of [G] with subject in [T], followed
-    (inverse paths) by those with object in [T]: a statement linking two
-    targets occurs twice. *)
+    [touching inv T G] = the statements of [G] with subject in [T] or
+    (inverse paths) object in [T], each once. *)
 From Coq Require Import List Ascii String ZArith Bool Permutation.
 From Shexer Require Import Lib.PyStr Lib.Dict Gen.Consts Gen.ConstsC15 Spec.Rdf Spec.EndpointSpec
      Model.Tracker Model.Profiler Model.Endpoint
@@ -27,24 +27,30 @@ Import ListNotations.
 
 (** (a) For both cache settings ([c] is arbitrary), every mode and every
     oracle: the run does not fail; the feature pass (pass 2) is delivered
-    exactly the neighbourhood of its targets, as a multiset, read as the local
-    path reads it; the instance pass (pass 1) is delivered the same for its
+    exactly the statements touching its targets, each once, read as the local
+    path reads them; the instance pass (pass 1) is delivered the same for its
     targets, or -- when [instances_cap] makes the tracker stop early -- a
     prefix of such a list.  In shape-map mode pass 1 reads no triples. *)
 Theorem C15_triples : forall c G O m,
-  ord_ok O -> dom c G -> mode_ok c G m ->
+  ord_ok O -> dom c G -> mode_ok m ->
   let r := run c m G O in
   r_ok r = true /\
-  Permutation (yields (r_p2 r)) (local_graph (neighbourhood (c_inverse c) (targets c G O 2 m) G)) /\
+  Permutation (yields (r_p2 r)) (local_graph (touching (c_inverse c) (targets c G O 2 m) G)) /\
   match m with
   | MShapeMap _ => yields (r_p1 r) = []
   | _ => exists full1,
-      Permutation full1 (local_graph (neighbourhood (c_inverse c) (targets c G O 1 m) G)) /\
+      Permutation full1 (local_graph (touching (c_inverse c) (targets c G O 1 m) G)) /\
       (yields (r_p1 r) = full1 \/
        ((0 < c_cap c)%Z /\ ~ reads_all c m /\ exists n, yields (r_p1 r) = firstn n full1))
   end.
 Proof. exact C15a. Qed.
 Print Assumptions C15_triples.
+
+(** no statement is delivered twice to the feature pass (finding C15-F2 repaired) *)
+Theorem C15_delivered_once : forall c G O m,
+  ord_ok O -> dom c G -> mode_ok m -> NoDup (yields (r_p2 (run c m G O))).
+Proof. exact C15a_nodup. Qed.
+Print Assumptions C15_delivered_once.
 
 (** Without a LIMIT the targets are exactly the instances of the target classes. *)
 Theorem C15_targets_are_instances : forall c G O pass cl x,
@@ -56,7 +62,7 @@ Print Assumptions C15_targets_are_instances.
 (** (b) [disable_endpoint_cache] does not change what is delivered: equal as
     multisets (as lists it is false: [C15_cache_same_list_refuted]). *)
 Theorem C15_cache_same_result : forall c G O m,
-  ord_ok O -> dom c G -> mode_ok c G m ->
+  ord_ok O -> dom c G -> mode_ok m ->
   let rc := run (with_cache true c) m G O in
   let rn := run (with_cache false c) m G O in
   Permutation (yields (r_p2 rc)) (yields (r_p2 rn)) /\
@@ -72,7 +78,7 @@ Print Assumptions C15_cache_same_result.
     position of the stop is read off two differently ordered streams); the
     check evaluates the statement on capped runs as well. *)
 Theorem C15_cache_log_partial : forall c G O m,
-  ord_ok O -> dom c G -> mode_ok c G m -> reads_all c m ->
+  ord_ok O -> dom c G -> mode_ok m -> reads_all c m ->
   let rc := run (with_cache true c) m G O in
   let rn := run (with_cache false c) m G O in
   subseq (log_of rc) (log_of rn) /\
@@ -83,25 +89,20 @@ Print Assumptions C15_cache_log_partial.
 
 (** (d) The tie to the local extraction.  For an instance dictionary [I] whose
     keys are the targets: what the endpoint delivers to the feature pass is a
-    permutation of the statements of the local graph that the local feature
-    pass ([Profiler.annotate_all]) does not skip, plus (inverse paths) a second
-    copy of every statement linking two targets; and the local feature pass
-    computes the same from that restriction as from the whole graph.
-    Equality of the final SHAPES needs two more facts that are not proved
-    here: permutation invariance of the pipeline (property C09, Props/C09.v:
-    [C09_tracker_permutation], [C09_profile_permutation_invariant],
-    [C09_keys_permutation_invariant] -- without instance cap, up to the choice
-    among tied candidates) and, with inverse paths, absence of statements
-    linking two targets -- the second copy is counted
-    ([C15_inverse_double_refuted], finding C15-F2). *)
+    permutation of exactly the statements of the local graph that the local
+    feature pass ([Profiler.annotate_all]) does not skip, and the local feature
+    pass computes the same from that restriction as from the whole graph.
+    Equality of the final SHAPES then follows from permutation invariance of
+    the pipeline (property C09, Props/C09.v: [C09_tracker_permutation],
+    [C09_profile_permutation_invariant], [C09_keys_permutation_invariant] --
+    without instance cap, up to the choice among tied candidates); that
+    composition is not proved here. *)
 Theorem C15_equals_local_partial : forall c G O m I,
-  ord_ok O -> dom c G -> mode_ok c G m ->
+  ord_ok O -> dom c G -> mode_ok m ->
   let r := run c m G O in
   let T := targets c G O 2 m in
   (forall id, Profiler.tracked I id = mem_str id T) ->
-  Permutation (yields (r_p2 r))
-              (filter (rel (c_inverse c) I) (local_graph G) ++
-               local_graph (filter (fun t => subj_in T t && obj_in T t) (if c_inverse c then G else []))) /\
+  Permutation (yields (r_p2 r)) (filter (rel (c_inverse c) I) (local_graph G)) /\
   annotate_all (c_tau c) (c_inverse c) (local_graph G) I =
   annotate_all (c_tau c) (c_inverse c) (filter (rel (c_inverse c) I) (local_graph G)) I.
 Proof. exact C15d. Qed.
@@ -115,6 +116,31 @@ Theorem C15_pass1_reads_like_tracker : forall tau m cap g n,
   consumption tau m cap g = CStop n -> track tau m cap g = track tau m cap (firstn n g).
 Proof. exact consumption_stop_track. Qed.
 Print Assumptions C15_pass1_reads_like_tracker.
+
+(** Since fix c9a1e70 the targets are collected in an insertion-ordered
+    dictionary: they are the first occurrences of the selector answers, in
+    answer order (no set oracle is left; the theorems above, quantified over
+    [o_set], are stronger than needed), and in shape-map mode the fetches are
+    sent in exactly that order. *)
+Theorem C15_targets_first_occurrence : forall c G O pass m,
+  targets c G O pass m =
+  dedup str_eqb (flat_map (sel_answers G O (match m with MShapeMap _ => 1 | _ => pass end) (c_tau c)
+                                       (match m with MShapeMap _ => (-1)%Z | _ => eff_limit c end))
+                          (match m with
+                           | MClasses cl => class_items cl
+                           | MAll => class_items (all_classes G O pass (c_tau c))
+                           | MShapeMap items => items
+                           end)).
+Proof. exact targets_first_occurrence. Qed.
+Print Assumptions C15_targets_first_occurrence.
+
+Theorem C15_fetch_order_shape_map : forall c G O items,
+  ord_ok O -> dom c G -> forallb sel_plain items = true ->
+  let T := dedup str_eqb (flat_map (sel_answers G O 1 (c_tau c) (-1)) items) in
+  queries (r_p2 (run c (MShapeMap items) G O)) =
+  map (fun a => (QPO, a)) T ++ (if c_inverse c then map (fun a => (QSP, a)) T else []).
+Proof. exact fetch_order_map. Qed.
+Print Assumptions C15_fetch_order_shape_map.
 
 (** The set oracle the harness uses (ranking observed at the real set->list
     site) is an instance of the oracles the theorems quantify over. *)
@@ -147,75 +173,63 @@ Definition G_ex : sgraph :=
 
 Ltac nodup_compute := apply nodup_b_ok; vm_compute; reflexivity.
 
+Definition cA : cfg := cfg0 true true (-1) (-1).
+
 Example C15_dom_inhabited :
-  dom (cfg0 true true (-1) (-1)) G_ex /\ mode_ok (cfg0 true true (-1) (-1)) G_ex (MClasses [ex "C"; ex "D"]) /\
-  mode_ok (cfg0 true true (-1) (-1)) G_ex MAll /\
-  List.length (yields (r_p2 (run (cfg0 true true (-1) (-1)) (MClasses [ex "C"; ex "D"]) G_ex id_oracles))) = 11 /\
-  List.length (log_of (run (cfg0 true true (-1) (-1)) MAll G_ex id_oracles)) = 12 /\
+  dom cA G_ex /\ mode_ok (MClasses [ex "C"; ex "D"]) /\
+  List.length (yields (r_p2 (run cA (MClasses [ex "C"; ex "D"]) G_ex id_oracles))) = 9 /\
+  List.length (log_of (run cA MAll G_ex id_oracles)) = 12 /\
   List.length (log_of (run (cfg0 false true (-1) (-1)) MAll G_ex id_oracles)) = 18.
 Proof.
   split; [split; [vm_compute; reflexivity | unfold local_graph; nodup_compute]|].
-  split; [discriminate|]. split; [split; [vm_compute; reflexivity | exists (ty "a" "C"); split; [left|]; reflexivity]|].
-  repeat split; vm_compute; reflexivity.
+  split; [exact I|]. repeat split; vm_compute; reflexivity.
 Qed.
-
-(** ** what is false today (known findings; each with a pinned reproducer
-    replayed against the real code by harness/vp/props/c15.py) *)
 
 Ltac in_compute := apply in_triple_b; vm_compute; reflexivity.
 Ltac not_in_compute := apply notin_triple_b; vm_compute; reflexivity.
 
-(** C15-F1 (result reader).  A language-tagged literal is delivered with its
-    value doubled and quoted ([hola"hola"@es]); a typed literal whose
-    datatype cannot be guessed from its lexical form loses its datatype
-    ([xsd:date] -> [xsd:string]); a plain string that looks like a number
-    becomes [xsd:integer].  None of the three delivered objects occurs in the
-    local reading of the graph. *)
+(** ** repaired findings, as regression examples *)
+
+(** C15-F1 repaired: language-tagged, typed (also with a datatype that cannot
+    be guessed from the lexical form) and numeric-looking plain literals are in
+    the domain, with and without the cache, and are delivered as read locally. *)
 Definition G_f1 : sgraph :=
   [ty "a" "C"; st "a" "l" (SLit (Str "hola") None (Some (Str "es")));
    st "a" "d" (SLit (Str "2020-01-01") (Some (Str "http://www.w3.org/2001/XMLSchema#date")) None);
-   st "a" "s" (plain_lit "42")].
+   st "a" "s" (plain_lit "42"); st "a" "k" (SLit (Str "007") (Some xsd_integer) None);
+   st "a" "c" (SLit (Str "v1") (Some (Str "http://ex.org/dt")) None)].
 
-Lemma C15_literals_refuted :
-  exists c G O m, ord_ok O /\ NoDup (local_graph G) /\ mode_ok c G m /\ r_ok (run c m G O) = true /\
-    exists x y z, In x (yields (r_p2 (run c m G O))) /\ ~ In x (local_graph G) /\
-                  In y (yields (r_p2 (run c m G O))) /\ ~ In y (local_graph G) /\
-                  In z (yields (r_p2 (run c m G O))) /\ ~ In z (local_graph G) /\
-                  to x = OL (Str "hola""hola""@es") c_LANG_STRING_TYPE /\
-                  to y = OL (Str "2020-01-01") c_STRING_TYPE /\
-                  to z = OL (Str "42") c_INTEGER_TYPE.
+Example C15_literals_in_domain :
+  dom (cfg0 true false (-1) (-1)) G_f1 /\
+  yields (r_p2 (run (cfg0 true false (-1) (-1)) (MClasses [ex "C"]) G_f1 id_oracles)) = local_graph G_f1 /\
+  yields (r_p2 (run (cfg0 false false (-1) (-1)) (MClasses [ex "C"]) G_f1 id_oracles)) = local_graph G_f1.
 Proof.
-  exists (cfg0 true false (-1) (-1)), G_f1, id_oracles, (MClasses [ex "C"]).
-  split; [apply id_oracles_ok|]. split; [unfold local_graph; nodup_compute|]. split; [discriminate|].
-  split; [vm_compute; reflexivity|].
-  exists {| ts := Node KIri (ex "a"); tp := ex "l"; to := OL (Str "hola""hola""@es") c_LANG_STRING_TYPE |},
-         {| ts := Node KIri (ex "a"); tp := ex "d"; to := OL (Str "2020-01-01") c_STRING_TYPE |},
-         {| ts := Node KIri (ex "a"); tp := ex "s"; to := OL (Str "42") c_INTEGER_TYPE |}.
-  split; [in_compute|]. split; [not_in_compute|]. split; [in_compute|]. split; [not_in_compute|].
-  split; [in_compute|]. split; [not_in_compute|]. repeat split; reflexivity.
+  split; [split; [vm_compute; reflexivity | unfold local_graph; nodup_compute]|]. split; vm_compute; reflexivity.
 Qed.
 
-(** C15-F2 (inverse paths, inside the domain).  A statement linking two
-    targets is delivered twice -- by the outgoing fetch of its subject and by
-    the incoming fetch of its object -- and the feature pass counts it twice:
-    from what the endpoint delivers the instance [a] has two [p]-values of
-    kind IRI, from the local graph one. *)
+(** C15-F2 repaired: a statement linking two targets is delivered once. *)
 Definition G_f2 : sgraph := [ty "a" "C"; st "a" "p" (iri "b"); ty "b" "D"].
-Definition I_f2 : idict := adapt [(ex "a", [ex "C"]); (ex "b", [ex "D"])].
+Example C15_inverse_once :
+  dom cA G_f2 /\ yields (r_p2 (run cA MAll G_f2 id_oracles)) = local_graph G_f2.
+Proof. split; [split; [vm_compute; reflexivity | unfold local_graph; nodup_compute]|]. vm_compute. reflexivity. Qed.
 
-Lemma C15_inverse_double_refuted :
-  exists c G O m, ord_ok O /\ dom c G /\ mode_ok c G m /\
-    ~ NoDup (yields (r_p2 (run c m G O))) /\
-    annotate_all (c_tau c) true (yields (r_p2 (run c m G O))) I_f2 <>
-    annotate_all (c_tau c) true (local_graph G) I_f2.
-Proof.
-  exists (cfg0 true true (-1) (-1)), G_f2, id_oracles, MAll.
-  split; [apply id_oracles_ok|]. split; [split; [vm_compute; reflexivity | unfold local_graph; nodup_compute]|].
-  split; [split; [vm_compute; reflexivity | exists (ty "a" "C"); split; [left|]; reflexivity]|].
-  split.
-  - apply nodup_b_false. vm_compute. reflexivity.
-  - intro H. vm_compute in H. discriminate.
-Qed.
+(** C15-F4 repaired: [instances_cap = 0] is no cap and no LIMIT. *)
+Example C15_cap_zero_no_limit :
+  eff_limit (cfg0 true false (-1) 0) = (-1)%Z /\
+  log_of (run (cfg0 true false (-1) 0) (MClasses [ex "C"]) G_ex id_oracles) =
+  log_of (run (cfg0 true false (-1) (-1)) (MClasses [ex "C"]) G_ex id_oracles).
+Proof. split; vm_compute; reflexivity. Qed.
+
+(** C15-F5 repaired: all_classes_mode against an endpoint without any
+    instance delivers nothing and does not fail. *)
+Example C15_no_class_ok :
+  r_ok (run (cfg0 true false (-1) (-1)) MAll [st "a" "p" (iri "b")] id_oracles) = true /\
+  r_p1 (run (cfg0 true false (-1) (-1)) MAll [st "a" "p" (iri "b")] id_oracles) = [EQ (QClasses, rdf_type)] /\
+  yields (r_p2 (run (cfg0 true false (-1) (-1)) MAll [st "a" "p" (iri "b")] id_oracles)) = [].
+Proof. repeat split; vm_compute; reflexivity. Qed.
+
+(** ** what is false today (known findings; each with a pinned reproducer
+    replayed against the real code by harness/vp/props/c15.py) *)
 
 (** (b) as lists is false: the local rdflib graph of the cache returns the
     statements of a node grouped by predicate, the endpoint in its own order. *)
@@ -225,12 +239,12 @@ Definition ord_pqp : oracles :=
      o_set := fun _ l => l |}.
 
 Lemma C15_cache_same_list_refuted :
-  exists c G O m, dom c G /\ mode_ok c G m /\
+  exists c G O m, dom c G /\ mode_ok m /\
     (forall pass q, Permutation (o_ord O pass q (po_match G (ex "a"))) (po_match G (ex "a"))) /\
     yields (r_p2 (run (with_cache true c) m G O)) <> yields (r_p2 (run (with_cache false c) m G O)).
 Proof.
   exists (cfg0 true false (-1) (-1)), G_order, ord_pqp, (MClasses [ex "C"]).
-  split; [split; [vm_compute; reflexivity | unfold local_graph; nodup_compute]|]. split; [discriminate|].
+  split; [split; [vm_compute; reflexivity | unfold local_graph; nodup_compute]|]. split; [exact I|].
   split.
   - intros pass [k n]. destruct k; cbn; try apply Permutation_refl.
     change (po_match G_order (ex "a")) with G_order. unfold G_order.
@@ -238,33 +252,6 @@ Proof.
     + constructor. apply perm_swap.
     + apply perm_swap.
   - intro H. vm_compute in H. discriminate.
-Qed.
-
-(** C15-F4.  [instances_cap = 0] means "no cap" for the trackers
-    ([Tracker.track]: [cap <= 0]) but becomes [LIMIT 0] on the class selector:
-    nothing is delivered although the class has instances. *)
-Lemma C15_cap_zero_refuted :
-  exists c G O m, ord_ok O /\ dom c G /\ mode_ok c G m /\ c_cap c = 0%Z /\
-    instances_of (c_tau c) (ex "C") G <> [] /\
-    yields (r_p2 (run c m G O)) = [] /\ log_of (run c m G O) = [(QSel, ex "C" ++ Str " LIMIT 0"); (QSel, ex "C" ++ Str " LIMIT 0")].
-Proof.
-  exists (cfg0 true false (-1) 0), G_ex, id_oracles, (MClasses [ex "C"]).
-  split; [apply id_oracles_ok|]. split; [split; [vm_compute; reflexivity | unfold local_graph; nodup_compute]|].
-  split; [discriminate|]. split; [reflexivity|]. split; [vm_compute; discriminate|].
-  split; vm_compute; reflexivity.
-Qed.
-
-(** C15-F5.  all_classes_mode against an endpoint without any instance: the
-    shape map is empty, it has no sgraph, the yielder dies with AttributeError
-    (the local extraction answers an empty schema).  This is why [mode_ok]
-    asks for one instantiation statement. *)
-Lemma C15_no_class_refuted :
-  exists c G O, ord_ok O /\ dom c G /\ r_ok (run c MAll G O) = false /\
-    r_p1 (run c MAll G O) = [EQ (QClasses, c_tau c); EX XAttr].
-Proof.
-  exists (cfg0 true false (-1) (-1)), [st "a" "p" (iri "b")], id_oracles.
-  split; [apply id_oracles_ok|]. split; [split; [vm_compute; reflexivity | unfold local_graph; nodup_compute]|].
-  split; vm_compute; reflexivity.
 Qed.
 
 (** C15-F6.  With a LIMIT the class selector is sent once per pass without
@@ -275,7 +262,7 @@ Definition flip_oracles : oracles :=
   {| o_ord := fun pass _ l => if Nat.eqb pass 2 then rev l else l; o_set := fun _ l => l |}.
 
 Lemma C15_limit_two_selects_refuted :
-  exists c G O m, ord_ok O /\ dom c G /\ mode_ok c G m /\
+  exists c G O m, ord_ok O /\ dom c G /\ mode_ok m /\
     targets c G O 1 m = [ex "a"] /\ targets c G O 2 m = [ex "c"] /\
     map ts (yields (r_p1 (run c m G O))) = [Node KIri (ex "a"); Node KIri (ex "a"); Node KIri (ex "a"); Node KIri (ex "a")] /\
     map ts (yields (r_p2 (run c m G O))) = [Node KIri (ex "c"); Node KIri (ex "c"); Node KIri (ex "c")].
@@ -283,7 +270,7 @@ Proof.
   exists (cfg0 true false 1 (-1)), G_ex, flip_oracles, (MClasses [ex "C"]).
   split; [split; intros; cbn; [destruct (Nat.eqb pass 2); [apply Permutation_sym, Permutation_rev | apply Permutation_refl] | apply Permutation_refl]|].
   split; [split; [vm_compute; reflexivity | unfold local_graph; nodup_compute]|].
-  split; [discriminate|]. repeat split; vm_compute; reflexivity.
+  split; [exact I|]. repeat split; vm_compute; reflexivity.
 Qed.
 
 (** C15-F3 (outside the property's domain of IRI nodes).  A blank-node object
